@@ -347,6 +347,7 @@ ASSUMPTIONS_COMMON = [
     "A-TRAIT: the GarnishData trait contract of units/V1_runtime/preamble.rs holds for the data implementation in use (checked only where units V2 (Basic) and V3 (Simple) say so, clause by clause, by reading the same statement in both files)",
     "A-HOST: host callbacks (resolve/apply/defer_op) obey the documented protocol: accepted => exactly one valid result on the operand stack, declined => operand stack untouched",
     "A-AXIOMS: Size behaves as nat, Clone is identity, comparison operators implement the spec functions; iterators yield their remaining items in order (next_law); Extents(zero, max_value) selects a whole sequence; equality of Size/Symbol/Char/Byte is structural, of Number numeric; counting up from zero stays a list position and the sum of two list positions is one (is_idx); push_register leaves the value table untouched (proof fn axioms() / trait clauses)",
+    "A-64BIT (unit V3): usize is 64 bits wide (`global size_of usize == 8`), as on the shipped targets",
     "A-MEM (unit V2): push_ok_n - the appends a method performs fit the machine (memory is not exhausted within the call)",
     "A-FROM: `?` converting Data::Error into RuntimeError yields err_from(e) with code Unknown (vstd leaves spec_from uninterpreted)",
     "RuntimeError::{new,new_message,unsupported_types,get_type} and std::cmp::Ordering::{is_lt,is_le,is_gt,is_ge} carry assumed specifications",
@@ -356,7 +357,7 @@ ASSUMPTIONS_COMMON = [
 
 NOT_DECIDED = {
     "C06": "that `build` emits balanced programs (static half); that the per-implementation clauses of V2 (Basic) and V3 (Simple) for the stack methods are the same statements as the V1 trait contract is by reading, no refinement proof links the files; two closure statements of type_cast and the Slice-of-Concatenation arm of access_with_symbol are assumed stand-ins",
-    "C07": "everything not under contract: lexer, parser, builder, conversions, display, optimise/clone, Basic's end_list, SimpleGarnishData's interning adders, iterators and clone/optimise",
+    "C07": "everything not under contract: lexer, parser, builder, conversions, display, optimise/clone, Basic's end_list, SimpleGarnishData's interning adders, its text / byte / symbol-list iterators and clone/optimise; the element conversions inside Basic's text / byte / symbol-list iterators (`unwrap()` on a cell of the window) and the Slice-of-List sub-arm of Simple's collect_concatenation_indices are assumed stand-ins",
     "C08": "two closure statements of type_cast (Concatenation -> List) are cut out and assumed; the data implementations' own host plumbing",
     "C09": "f64::powf and f64 % f64 (libm, unmodelled by CBMC); float * and / exactness and in-range float // (tier deep, not registered); integer ** exactness only in the thorough tier",
     "C10": "that `build` places right operands / arms behind the jumps; evaluation counts over whole programs",
